@@ -39,6 +39,8 @@ def run_check(prop, tier, seed, replay=None):
             raw, loaded = core.extract_conf(ws)
             ctx['raw'] = raw
             ctx['rawd'] = dict((k, v) for k, v in raw)
+            ctx['loaded_templates'] = list(loaded.values())[0][0]
+            ctx['loaded'] = list(loaded.values())[0]
             gen_dir = None
             try:
                 gen_dir = core.write_gen(ws, raw, loaded)
@@ -82,6 +84,19 @@ def run_check(prop, tier, seed, replay=None):
         except CheckFailure as e:
             broken.append({'kind': e.what, 'obligation': 'model-run', 'detail': e.detail[-1500:]})
         impl_out = core.run_impl(ws, reqs, **prop.impl_kwargs(ctx))
+        # second phase: cases derived from the implementation's first-phase observations
+        if not replay:
+            more = prop.phase2(rng, ctx, cases, impl_out, tier)
+            if more:
+                mreqs = [(c.op, c.args) for c in more]
+                if model_out is not None:
+                    try:
+                        model_out = model_out + core.run_model(ws, raw, mreqs)
+                    except CheckFailure as e:
+                        broken.append({'kind': e.what, 'obligation': 'model-run', 'detail': e.detail[-1500:]})
+                        model_out = None
+                impl_out = impl_out + core.run_impl(ws, mreqs, **prop.impl_kwargs(ctx))
+                cases = cases + more
         disagreements = []
         unmodelled = 0
         distinct = set()
@@ -182,6 +197,8 @@ class PropBase:
     def impl_kwargs(self, ctx):
         return {}
     def cases(self, rng, ctx, tier):
+        return []
+    def phase2(self, rng, ctx, cases, impl_out, tier):
         return []
     def search_cases(self, rng, ctx, tier):
         r2 = __import__('random').Random(rng.random())
